@@ -58,6 +58,9 @@ func runC14(c *Ctx) {
 		}
 	}
 
+	c.Rule("C14-D6", "the heartbeat does not depend on the write path it watches (F66, known finding): the pong timer is armed before (or independently of) a PING send that can block", 1)
+	heartbeatIndependentOfWrites(c, "C14-D6")
+
 	c.Rule("C14-D1", "bound arithmetic: the server's ping loop sleeps pingInterval, then waits pingTimeout for the pong after sending a PING; the client's watchdog waits pingInterval+pingTimeout; both durations flow unchanged from the server configuration / the handshake, and announced and parsed values use the same unit", 14)
 	{
 		fn := p.Fn("eio", "serverSocket.pingPong")
